@@ -8,16 +8,21 @@ Property theorems only (helper lemmas: `MesonModel/Crash/Lemmas.lean`).
   the static "never torn" discipline is sound; the readers of the follow-up `meson setup` are total and fail
   exactly when `cmd_line.txt` is torn (internal error) or `coredata.dat` is torn with no `cmd_line.txt` (clean error).
 * Per-run obligations over `Generated/CrashTraces.lean` — the effect traces recorded from the real commands on
-  this very run — by kernel evaluation: at every crash point of every recorded trace the follow-up setup is
-  usable and every option has its old or its new value, except in the `--wipe` window proved (and confirmed on the
-  real code) to be a defect: `--wipe` deletes `coredata.dat` and `cmd_line.txt` before it has written their
-  successors (the only copy of `cmd_line.txt` lives outside the tree meanwhile, and a directory without
-  `coredata.dat` is re-configured without the machine files that `cmd_line.txt` names).  `coredata.dat` and
-  `cmd_line.txt` are never torn in any recorded trace; `coredata.dat` never disappears during
-  `--reconfigure`/`configure`.
-  (Until 550d77f `cmd_line.txt` was rewritten in place; the exclusion for a torn `cmd_line.txt` is gone.)
+  this very run — by kernel evaluation: at every crash point of every recorded trace, `--wipe` included, the
+  follow-up setup is usable and every option has its old or its new value.  `coredata.dat` and `cmd_line.txt` are
+  never torn in any recorded trace; `coredata.dat` never disappears during `--reconfigure`/`configure`;
+  `cmd_line.txt` never disappears during `--wipe`; no file is renamed into place while a handle on it holds
+  unflushed data.
+  (Until 550d77f `cmd_line.txt` was rewritten in place; until the two `--wipe` repairs `--wipe` moved `cmd_line.txt`
+  out of the tree and back, and a directory without `coredata.dat` was configured without the machine files that
+  `cmd_line.txt` names.  The exclusions for both are gone.)
+* The buffered dimension (`Crash/Buffered.lean`): with `open`/`write`/`spill`/`flush`/`fsync`/`close`/`replace` as
+  separate effects, handles that follow their inode through a rename and a user-space buffer that a kill loses,
+  the target of temp+`os.replace` is old-or-new at every crash point iff nothing is pending in the buffer at the
+  rename (and nothing is written through the handle afterwards).
 -/
 import MesonModel.Crash.Lemmas
+import MesonModel.Crash.Buffered
 import MesonModel.Generated.CrashTraces
 
 namespace MesonModel.Props.C09
@@ -144,6 +149,105 @@ theorem replaces_fresh_mono (t : List (Effect α)) (st st' : Stale)
     (hle : ∀ p, st' p = true → st p = true) (h : replacesFresh st t = true) : replacesFresh st' t = true :=
   replacesFresh_mono t st st' hle h
 
+/-! ### the buffered dimension: data reaches the file only at flush/close (`Crash/Buffered.lean`)
+
+`open(tmp,'w')`, any handle operations, `os.replace(tmp, dst)`, any further handle operations — with a user-space
+buffer that a kill loses and a handle that follows its inode through the rename. -/
+
+section Buffered
+open Buf
+variable {β : Type}
+
+/-- if every write is followed by a flush or a close before the rename and nothing is written through the handle
+    afterwards, the target holds what it held or the complete new content at every crash point — whatever the
+    data, however much of it the buffer hands to the kernel on its own -/
+theorem buffered_replace_safe (s : St β) (tmp dst : Path) (ops1 ops2 : List (HOp β)) (hne : tmp ≠ dst)
+    (hd : dirtyAfter false ops1 = false) (hw : ops2.all (fun op => !op.isWrite) = true) :
+    ∀ f ∈ crashFiles s (proto tmp dst ops1 ops2), f dst = s.file dst ∨ f dst = some (finalContent ops1 ops2) := by
+  have hp : (atReplace ops1).pending = [] :=
+    clean_pending One.init false ops1 (fun _ => rfl) hd
+  have hw' : (ops2 ++ [HOp.close]).all (fun op => !op.isWrite) = true := by
+    rw [List.all_append, hw]; rfl
+  have hfin : finalContent ops1 ops2 = (atReplace ops1).c := (One.trail_const _ _ hp hw').2.1
+  intro f hf
+  rcases proto_crash_dst s tmp dst ops1 ops2 hne f hf with h | ⟨c, hc, h⟩
+  · exact Or.inl h
+  · right; rw [h, hfin, (One.trail_const _ _ hp hw).1 c hc]
+
+/-- if something is pending in the buffer at the rename, the crash point right after the rename leaves the target
+    with neither its old nor the new content (the old file is assumed not to be, by coincidence, exactly what had
+    reached the temp file) -/
+theorem buffered_replace_unflushed_unsafe (s : St β) (tmp dst : Path) (ops1 ops2 : List (HOp β)) (hne : tmp ≠ dst)
+    (hp : (atReplace ops1).pending ≠ []) (hold : s.file dst ≠ some (atReplace ops1).c) :
+    ∃ f ∈ crashFiles s (proto tmp dst ops1 ops2), f dst ≠ s.file dst ∧ f dst ≠ some (finalContent ops1 ops2) := by
+  obtain ⟨f, hf, h⟩ := proto_crash_after_replace s tmp dst ops1 ops2 hne
+  refine ⟨f, hf, ?_, ?_⟩
+  · rw [h]; exact fun e => hold e.symm
+  · rw [h]
+    intro e
+    have e' : (atReplace ops1).c = finalContent ops1 ops2 := by simpa using e
+    obtain ⟨y, hy⟩ := One.total_run (atReplace ops1) (ops2 ++ [.close])
+    have hpc := One.pending_after_close (atReplace ops1) ops2
+    simp only [One.total, hpc, List.append_nil] at hy
+    unfold finalContent at e'
+    rw [← e', List.append_assoc] at hy
+    have : (atReplace ops1).pending ++ y = [] := by
+      have := congrArg List.length hy
+      simp only [List.length_append] at this
+      exact List.eq_nil_of_length_eq_zero (by simp only [List.length_append]; omega)
+    exact hp (List.append_eq_nil_iff.mp this).1
+
+/-- the atomic-replace theorem in the finer model: the target is old-or-new at every crash point IFF every byte
+    written to the temp file has been flushed (or the file closed) before the rename -/
+theorem buffered_replace_iff (s : St β) (tmp dst : Path) (ops1 ops2 : List (HOp β)) (hne : tmp ≠ dst)
+    (hw : ops2.all (fun op => !op.isWrite) = true) (hold : s.file dst ≠ some (atReplace ops1).c) :
+    (∀ f ∈ crashFiles s (proto tmp dst ops1 ops2), f dst = s.file dst ∨ f dst = some (finalContent ops1 ops2)) ↔
+      (atReplace ops1).pending = [] := by
+  constructor
+  · intro h
+    apply Classical.byContradiction
+    intro hp
+    obtain ⟨f, hf, h1, h2⟩ := buffered_replace_unflushed_unsafe s tmp dst ops1 ops2 hne hp hold
+    rcases h f hf with h' | h'
+    · exact h1 h'
+    · exact h2 h'
+  · intro hp
+    have hw' : (ops2 ++ [HOp.close]).all (fun op => !op.isWrite) = true := by
+      rw [List.all_append, hw]; rfl
+    have hfin : finalContent ops1 ops2 = (atReplace ops1).c := (One.trail_const _ _ hp hw').2.1
+    intro f hf
+    rcases proto_crash_dst s tmp dst ops1 ops2 hne f hf with h | ⟨c, hc, h⟩
+    · exact Or.inl h
+    · right; rw [h, hfin, (One.trail_const _ _ hp hw).1 c hc]
+
+/-- a recorded protocol instance that passes the trace discipline `flushedReplaces` (what
+    `recorded_replaces_flushed` decides on the real traces) is crash safe in the finer model -/
+theorem flushed_discipline_safe (s : St β) (tmp dst : Path) (ops1 ops2 : List (HOp β)) (hne : tmp ≠ dst)
+    (h : flushedReplaces [] [] (protoCoarse tmp dst ops1 ops2) = true) :
+    ∀ f ∈ crashFiles s (proto tmp dst ops1 ops2), f dst = s.file dst ∨ f dst = some (finalContent ops1 ops2) :=
+  buffered_replace_safe s tmp dst ops1 ops2 hne (flushed_proto tmp dst ops1 ops2 h).1 (flushed_proto tmp dst ops1 ops2 h).2
+
+/-- `coredata.save` / `_write_config_atomically` as written: write, `f.flush()`, `os.fsync(f.fileno())`, end of the
+    `with` block, then `os.replace` — passes the discipline for every data -/
+theorem written_protocol_flushed (d : List β) :
+    flushedReplaces [] [] (protoCoarse pCmdlineTmp pCmdline [HOp.write d, .flush, .fsync, .close] []) = true := by
+  rfl
+
+/-- the counterexample trace, replace before close: `os.fsync(f)` without `f.flush()` and `os.replace` inside the
+    `with` block — killed between the rename and the close, `cmd_line.txt` is an empty file: neither the old content
+    nor the new -/
+theorem replace_before_close_counterexample :
+    ∃ f ∈ crashFiles (⟨fun p => if p = pCmdline then some [7] else none, fun _ => none⟩ : St Nat)
+        (proto pCmdlineTmp pCmdline [.write [1, 2, 3], .fsync] [.close]),
+      f pCmdline = some [] ∧ finalContent (β := Nat) [.write [1, 2, 3], .fsync] [.close] = [1, 2, 3] ∧
+      flushedReplaces [] [] (protoCoarse (β := Nat) pCmdlineTmp pCmdline [.write [1, 2, 3], .fsync] [.close]) = false := by
+  obtain ⟨f, hf, h⟩ := proto_crash_after_replace
+    (⟨fun p => if p = pCmdline then some [7] else none, fun _ => none⟩ : St Nat)
+    pCmdlineTmp pCmdline [.write [1, 2, 3], .fsync] [.close] (by decide)
+  exact ⟨f, hf, by simpa [atReplace, One.run, One.step, One.init] using h, by decide, by decide⟩
+
+end Buffered
+
 /-! ### the static discipline, all traces -/
 
 /-- a trace that never opens, writes or copies onto `p` and only replaces it by complete files leaves `p`
@@ -202,24 +306,31 @@ theorem in_place_cmdline_unrecoverable (fs : FS α) (c : α) :
   obtain ⟨s, hs, ht⟩ := in_place_write_unsafe fs pCmdline c
   exact ⟨s, hs, (recover_internal_iff s).mpr ht⟩
 
-/-- the wipe sequence of `MesonApp.__init__` (msetup.py:85-115): copy cmd_line.txt out of the tree, delete the
-    tree, move the copy back -/
-def wipeProtocol (backup : Path) : List (Effect Gen) :=
+/-- the wipe sequence of `MesonApp.__init__` + `generate` (msetup.py): everything in the tree is deleted except
+    `cmd_line.txt` (and the machine files stored next to it), which stays in place; then the directory is configured
+    again: `coredata.save` (no `.prev`: there is no coredata.dat), build.dat, `write_cmd_line_file` -/
+def wipeProtocol (c : α) : List (Effect α) :=
+  [.unlink pBuildNinja, .unlink pBuildDat, .unlink pCoredata, .unlink pCoredataPrev] ++
+  atomicWrite pCoredataTmp pCoredata c ++ inPlaceWrite pBuildDat c ++ cmdlineSave c
+
+/-- at every crash point of `--wipe` the follow-up setup is usable and configures from the old `coredata.dat`,
+    from `cmd_line.txt` (old or rewritten) or from the new `coredata.dat`: old-or-new, also when option values came
+    from a machine file -/
+theorem wipe_protocol_recoverable :
+    ∀ s ∈ crashStates configured (wipeProtocol Gen.new), acceptable .wipe false (recover s) = true ∧
+      acceptable .wipe true (recover s) = true := by
+  decide
+
+/-- why `cmd_line.txt` must stay in the tree: the sequence used before the repair (copy it out of the tree, delete
+    the tree, move the copy back) has crash points after which the follow-up setup silently configures from
+    defaults — every option the user had set is lost -/
+def wipeMoveAside (backup : Path) : List (Effect Gen) :=
   [.copyfile pCmdline backup, .unlink pCmdline, .unlink pCoredata, .rmdir pPrivate,
    .mkdir pPrivate, .replace backup pCmdline]
 
-/-- … has crash points after which the follow-up setup silently configures from defaults: every option the
-    user had set is lost -/
-theorem wipe_window_counterexample :
-    ∃ s ∈ crashStates configured (wipeProtocol 100), recover s = .usable .fresh ∧
+theorem wipe_move_aside_counterexample :
+    ∃ s ∈ crashStates configured (wipeMoveAside 100), recover s = .usable .fresh ∧
       acceptable .wipe false (recover s) = false := by
-  decide
-
-/-- … and, in a directory configured with a machine file, crash points (coredata.dat gone, cmd_line.txt back in
-    place) after which the follow-up setup re-applies the -D options but not the machine file -/
-theorem wipe_machine_file_counterexample :
-    ∃ s ∈ crashStates configured (wipeProtocol 100), recover s = .usable (.cmdlineOptions .old) ∧
-      acceptable .wipe true (recover s) = false := by
   decide
 
 /-- rotating the old `coredata.dat` away with a rename before the new one is renamed into place (instead of
@@ -239,13 +350,13 @@ def configuredWithPrev : FS Gen :=
 
 /-- a rollback that first unlinks `coredata.dat` and then renames `.prev` into place has a crash point where the
     directory looks unconfigured: the follow-up setup rebuilds from cmd_line.txt and loses every value that lives
-    only in coredata.dat -/
+    only in coredata.dat (the environment of the first setup) -/
 def restorePrevUnlinkFirst : List (Effect Gen) :=
   [.unlink pCoredata, .replace pCoredataPrev pCoredata]
 
 theorem rollback_unlink_replace_counterexample :
     ∃ s ∈ crashStates configuredWithPrev restorePrevUnlinkFirst, s pCoredata = .absent ∧
-      recover s = .usable (.cmdlineOptions .old) ∧ acceptable .reconfigure true (recover s) = false := by
+      recover s = .usable (.cmdline .old) ∧ acceptable .reconfigure true (recover s) = false := by
   decide
 
 /-- a writer that always rewrites its file in place heals a torn copy on the next run, whatever the kill left -/
@@ -262,52 +373,158 @@ theorem skip_if_exists_counterexample :
       repairs AFS.top 50 ([] : List (Effect Gen)) = false := by
   decide
 
+/-! ### recovery totality: from every crash state of every modelled command, old-or-new
+
+The commands as written in the sources, over any content type, from *every* configured directory (whatever else it
+holds: leftovers of killed runs included).  `recovered`: the configuration the follow-up setup ends with. -/
+
+def recovered : Verdict α → Option α
+  | .usable (.coredata a) => some a
+  | .usable (.cmdline a) => some a
+  | _ => none
+
+/-- `meson configure -D…` (mconf.run_impl): `update_cmd_line_file`, then `coredata.save` -/
+def cmdConfigure (c : α) : List (Effect α) := cmdlineSave c ++ coredataSave c
+
+/-- `meson setup --reconfigure` (msetup._generate): `coredata.save`, build.ninja via its temp file, build.dat in
+    place, `update_cmd_line_file` -/
+def cmdReconfigure (c : α) : List (Effect α) :=
+  coredataSave c ++ atomicWrite pBuildNinjaTmp pBuildNinja c ++ inPlaceWrite pBuildDat c ++ cmdlineSave c
+
+/-- … failing after the dump: the `except` handler renames `.prev` back -/
+def cmdReconfigureFailing (c : α) : List (Effect α) :=
+  coredataSave c ++ atomicWrite pBuildNinjaTmp pBuildNinja c ++ restorePrev
+
+/-- a first `meson setup` in an empty directory -/
+def cmdSetup (c : α) : List (Effect α) :=
+  atomicWrite pCoredataTmp pCoredata c ++ atomicWrite pBuildNinjaTmp pBuildNinja c ++
+    inPlaceWrite pBuildDat c ++ cmdlineSave c
+
+theorem configure_recovery_total (fs : FS α) (o c : α) (h0 : fs pCoredata = .ok o) (h1 : fs pCmdline = .ok o) :
+    ∀ s ∈ crashStates fs (cmdConfigure c), recovered (recover s) = some o ∨ recovered (recover s) = some c := by
+  intro s hs
+  have h0 : fs 0 = .ok o := h0
+  have h1 : fs 1 = .ok o := h1
+  simp [cmdConfigure, cmdlineSave, coredataSave, atomicWrite, crashStates, step, mid, FS.set, h0, h1,
+    pCoredata, pCmdline, pCoredataTmp, pCoredataPrev, pCmdlineTmp] at hs
+  rcases hs with rfl | rfl | rfl | rfl | rfl | rfl | rfl | rfl | rfl | rfl | rfl | rfl | rfl | rfl | rfl | rfl | rfl <;>
+    simp [recover, recovered, h0, h1, pCoredata, pCmdline, pCoredataTmp, pCoredataPrev, pCmdlineTmp]
+
+theorem reconfigure_recovery_total (fs : FS α) (o c : α) (h0 : fs pCoredata = .ok o) (h1 : fs pCmdline = .ok o) :
+    ∀ s ∈ crashStates fs (cmdReconfigure c), recovered (recover s) = some o ∨ recovered (recover s) = some c := by
+  intro s hs
+  have h0 : fs 0 = .ok o := h0
+  have h1 : fs 1 = .ok o := h1
+  simp [cmdReconfigure, cmdlineSave, coredataSave, atomicWrite, inPlaceWrite, crashStates, step, mid, FS.set, h0, h1,
+    pCoredata, pCmdline, pCoredataTmp, pCoredataPrev, pCmdlineTmp, pBuildNinja, pBuildNinjaTmp, pBuildDat] at hs
+  rcases hs with rfl | rfl | rfl | rfl | rfl | rfl | rfl | rfl | rfl | rfl | rfl | rfl | rfl | rfl | rfl | rfl | rfl |
+    rfl | rfl | rfl | rfl | rfl | rfl | rfl | rfl | rfl | rfl | rfl | rfl <;>
+    simp [recover, recovered, h0, h1, pCoredata, pCmdline, pCoredataTmp, pCoredataPrev, pCmdlineTmp, pBuildNinja,
+      pBuildNinjaTmp, pBuildDat]
+
+theorem failing_reconfigure_recovery_total (fs : FS α) (o c : α) (h0 : fs pCoredata = .ok o)
+    (h1 : fs pCmdline = .ok o) :
+    ∀ s ∈ crashStates fs (cmdReconfigureFailing c),
+      recovered (recover s) = some o ∨ recovered (recover s) = some c := by
+  intro s hs
+  have h0 : fs 0 = .ok o := h0
+  have h1 : fs 1 = .ok o := h1
+  simp [cmdReconfigureFailing, restorePrev, coredataSave, atomicWrite, crashStates, step, mid, FS.set, h0, h1,
+    pCoredata, pCmdline, pCoredataTmp, pCoredataPrev, pBuildNinja, pBuildNinjaTmp] at hs
+  rcases hs with rfl | rfl | rfl | rfl | rfl | rfl | rfl | rfl | rfl | rfl | rfl | rfl | rfl | rfl | rfl | rfl | rfl |
+    rfl <;>
+    simp [recover, recovered, h0, h1, pCoredata, pCmdline, pCoredataTmp, pCoredataPrev, pBuildNinja, pBuildNinjaTmp]
+
+theorem wipe_recovery_total (fs : FS α) (o c : α) (h0 : fs pCoredata = .ok o) (h1 : fs pCmdline = .ok o) :
+    ∀ s ∈ crashStates fs (wipeProtocol c), recovered (recover s) = some o ∨ recovered (recover s) = some c := by
+  intro s hs
+  have h0 : fs 0 = .ok o := h0
+  have h1 : fs 1 = .ok o := h1
+  simp [wipeProtocol, cmdlineSave, atomicWrite, inPlaceWrite, crashStates, step, mid, FS.set, h0, h1,
+    pCoredata, pCmdline, pCoredataTmp, pCoredataPrev, pCmdlineTmp, pBuildNinja, pBuildDat] at hs
+  rcases hs with rfl | rfl | rfl | rfl | rfl | rfl | rfl | rfl | rfl | rfl | rfl | rfl | rfl | rfl | rfl | rfl | rfl |
+    rfl | rfl | rfl | rfl | rfl | rfl | rfl <;>
+    simp [recover, recovered, h0, h1, pCoredata, pCmdline, pCoredataTmp, pCoredataPrev, pCmdlineTmp, pBuildNinja,
+      pBuildDat]
+
+/-- a first setup in a directory that is not configured: the follow-up setup (same command line) starts afresh or
+    finds the complete new configuration -/
+theorem setup_recovery_total (fs : FS α) (c : α) (h0 : fs pCoredata = .absent) (h1 : fs pCmdline = .absent) :
+    ∀ s ∈ crashStates fs (cmdSetup c), recover s = .usable .fresh ∨ recovered (recover s) = some c := by
+  intro s hs
+  have h0 : fs 0 = .absent := h0
+  have h1 : fs 1 = .absent := h1
+  simp [cmdSetup, cmdlineSave, atomicWrite, inPlaceWrite, crashStates, step, mid, FS.set, h0, h1,
+    pCoredata, pCmdline, pCoredataTmp, pCmdlineTmp, pBuildNinja, pBuildNinjaTmp, pBuildDat] at hs
+  rcases hs with rfl | rfl | rfl | rfl | rfl | rfl | rfl | rfl | rfl | rfl | rfl | rfl | rfl | rfl | rfl | rfl | rfl |
+    rfl | rfl | rfl | rfl | rfl | rfl | rfl | rfl | rfl | rfl <;>
+    simp [recover, recovered, h0, h1, pCoredata, pCmdline, pCoredataTmp, pCmdlineTmp, pBuildNinja, pBuildNinjaTmp,
+      pBuildDat]
+
+/-- the last clause of the property at full strength: for every recorded command and *every* configured starting
+    directory — not only the one it was recorded from, so with any leftovers of earlier killed runs — every crash
+    point is recoverable old-or-new.  Proved: for the recorded starting directories (`all_crash_points_recoverable`
+    below, per run) and, from every configured directory and for every content, for the state-file protocols of the
+    four commands as written in the sources (the `*_recovery_total` theorems above).  Not proved: this statement,
+    i.e. the recorded traces from arbitrary directories, and the follow-up run as a state transformer on individual
+    options (the model takes a configuration as a whole: all options old or all new). -/
+def recovery_total_full_statement : Prop :=
+  ∀ sc ∈ CrashTraces.all, ∀ fs : FS Gen, fs pCoredata = sc.fs0 pCoredata → fs pCmdline = sc.fs0 pCmdline →
+    ∀ s ∈ crashStates fs sc.trace, acceptable sc.cmd sc.coredataOnly (recover s) = true
+
 /-! ### per-run obligations over the traces recorded from the real commands -/
 
-/-- the window in which the current code does not recover (the `--wipe` findings above) -/
-def excused (c : Cmd) (mf : Bool) (s : FS Gen) : Bool :=
-  c == .wipe && (s pCoredata).isAbsent && ((s pCmdline).isAbsent || mf)
-
 def scenarioOk (sc : Scenario) : Bool :=
-  (crashStates sc.fs0 sc.trace).all
-    (fun s => excused sc.cmd sc.coredataOnly s || acceptable sc.cmd sc.coredataOnly (recover s))
+  (crashStates sc.fs0 sc.trace).all (fun s => acceptable sc.cmd sc.coredataOnly (recover s))
 
 /-- the property over the model, full strength: every crash point of every recorded command is recoverable
-    with old-or-new option values (false of the current code: see the wipe counterexamples) -/
+    with old-or-new option values -/
 def full_statement : Prop :=
   ∀ sc ∈ CrashTraces.all, ∀ s ∈ crashStates sc.fs0 sc.trace,
     acceptable sc.cmd sc.coredataOnly (recover s) = true
 
-/-- every crash point of every recorded trace outside the `--wipe` window is recoverable, and the recovered
-    option values are the pre-command ones or the ones the command was setting -/
-theorem all_crash_points_recoverable_partial :
-    ∀ sc ∈ CrashTraces.all, ∀ s ∈ crashStates sc.fs0 sc.trace,
-      ¬ (sc.cmd = .wipe ∧ s pCoredata = .absent ∧ (s pCmdline = .absent ∨ sc.coredataOnly = true)) →
-      acceptable sc.cmd sc.coredataOnly (recover s) = true := by
+/-- every crash point of every recorded trace — `setup`, `--reconfigure`, `--wipe`, `configure`, succeeding or
+    failing — is recoverable, and the recovered option values are the pre-command ones or the ones the command was
+    setting -/
+theorem all_crash_points_recoverable : full_statement := by
   have key : ∀ sc ∈ CrashTraces.all, scenarioOk sc = true := by decide +kernel
-  intro sc hsc s hs h2
+  intro sc hsc s hs
   have := key sc hsc
   simp only [scenarioOk, List.all_eq_true] at this
-  have hx := this s hs
-  simp only [Bool.or_eq_true] at hx
-  rcases hx with hx | hx
-  · exfalso
-    simp only [excused, Bool.or_eq_true, Bool.and_eq_true, beq_iff_eq] at hx
-    obtain ⟨⟨hc, ha⟩, hb⟩ := hx
-    apply h2
-    refine ⟨hc, ?_, ?_⟩
-    · cases h : s pCoredata <;> simp_all [FileSt.isAbsent]
-    · rcases hb with hb | hb
-      · left; cases h : s pCmdline <;> simp_all [FileSt.isAbsent]
-      · right; exact hb
-  · exact hx
+  exact this s hs
 
-/-- in particular: the three commands other than `--wipe` are recoverable at *every* crash point -/
-theorem non_wipe_commands_recoverable :
-    ∀ sc ∈ CrashTraces.all, sc.cmd ≠ .wipe → ∀ s ∈ crashStates sc.fs0 sc.trace,
-      acceptable sc.cmd sc.coredataOnly (recover s) = true := by
-  intro sc hsc hne s hs
-  exact all_crash_points_recoverable_partial sc hsc s hs (fun h => hne h.1)
+/-- the part of `recovery_total_full_statement` that is proved per run: the starting directory is the recorded one -/
+theorem recovery_total_partial :
+    ∀ sc ∈ CrashTraces.all, ∀ fs : FS Gen, fs = sc.fs0 →
+      ∀ s ∈ crashStates fs sc.trace, acceptable sc.cmd sc.coredataOnly (recover s) = true := by
+  intro sc hsc fs hfs s hs
+  subst hfs
+  exact all_crash_points_recoverable sc hsc s hs
+
+def keepsCmdline (sc : Scenario) : Bool :=
+  !(sc.cmd == .wipe) || (alwaysPresentCheck pCmdline sc.trace && !(sc.fs0 pCmdline).isAbsent)
+
+/-- `--wipe` never unlinks `cmd_line.txt` nor renames it away … -/
+theorem recorded_wipe_keeps_cmdline : ∀ sc ∈ CrashTraces.all, keepsCmdline sc = true := by
+  decide +kernel
+
+/-- … hence the file the directory is configured from again exists at every crash point of `--wipe` -/
+theorem recorded_wipe_cmdline_always_present :
+    ∀ sc ∈ CrashTraces.all, sc.cmd = .wipe → ∀ s ∈ crashStates sc.fs0 sc.trace, s pCmdline ≠ .absent := by
+  intro sc hsc hcmd
+  have hk := recorded_wipe_keeps_cmdline sc hsc
+  simp only [keepsCmdline, hcmd, beq_self_eq_true, Bool.not_true, Bool.false_or, Bool.and_eq_true,
+    Bool.not_eq_true'] at hk
+  have h0 : sc.fs0 pCmdline ≠ .absent := by
+    intro h; simp [h, FileSt.isAbsent] at hk
+  exact alwaysPresentCheck_sound pCmdline sc.fs0 sc.trace hk.1 h0
+
+/-- no recorded command (nor its recorded follow-up run) renames a file into place while a handle on it holds
+    unflushed data, nor writes through a handle whose file has been renamed into place -/
+theorem recorded_replaces_flushed :
+    ∀ sc ∈ CrashTraces.all, Buf.flushedReplaces [] [] sc.trace = true ∧
+      Buf.flushedReplaces [] [] sc.recovery = true := by
+  decide +kernel
 
 /-- in every recorded trace `coredata.dat` obeys the static discipline (only ever replaced by a complete file) … -/
 theorem recorded_coredata_disciplined :
@@ -436,6 +653,7 @@ theorem recorded_recovery_temps_truncated :
 /-! ### non-vacuity -/
 
 example : CrashTraces.all.length = 45 := by decide
+example : ∃ sc ∈ CrashTraces.all, sc.cmd = .wipe ∧ sc.coredataOnly = false := by decide
 example : (crashStates CrashTraces.sc_configure_h2_ninja.fs0 CrashTraces.sc_configure_h2_ninja.trace).length > 10 := by
   decide +kernel
 /-- the partial theorem's hypotheses hold at some crash point where a state file is mid-update -/
